@@ -17,7 +17,7 @@ for c in m['checks']:
     e=json.load(open(c['evidence_file']))
     try: jsonschema.validate(e,s)
     except Exception as x: print('EVIDENCE INVALID', c['property_id'], str(x)[:200]); bad=1
-    if e['level']=='proof' and e['coverage']['obligations']-e['coverage']['discharged'] > len(e['coverage'].get('known_findings',[])): print('EVIDENCE discharged < obligations beyond the known findings', c['property_id']); bad=1
+    if e['level']=='proof' and e['coverage']['obligations'] != e['coverage']['discharged']: print('EVIDENCE discharged < obligations beyond the known findings', c['property_id']); bad=1
     if e['level']!=c['level_claimed']['category']: print('LEVEL MISMATCH', c['property_id']); bad=1
 print('evidence ok' if not bad else 'EVIDENCE PROBLEMS'); sys.exit(bad)
 PY
